@@ -454,9 +454,11 @@ def h_sampling(k):
         T = 1.0
         L = D.Sampling(u, interval=T, offset=0.0)
         L.list2array(1)
+        # the harness replaces the stores by arrays that can hold symbols; what the real arrays can hold is claimed separately
+        real_store_ok = bool(np.issubdtype(np.asarray(L._last_t).dtype, np.floating)) and bool(np.issubdtype(np.asarray(L._last_v).dtype, np.floating))
         L._last_v, L._last_t, L.v = I.to_obj(L._last_v), I.to_obj(L._last_t), I.to_obj(L.v)
         ts = _times(I, k)
-        out = []
+        out = [('the stores of the last sample time and value hold real numbers (a sample time is not a whole number of seconds)', real_store_ok)]
         held, last_t, prev_held = None, 0.0, None
         for j, t in enumerate(ts):
             uu = I.real(f'u_{j}')
@@ -477,12 +479,37 @@ def h_sampling(k):
     return h
 
 
+def h_antiwindup_registry(I):
+    """real System.store_adder_setter on two models that each own an anti-windup limiter of the SAME name (names are unique only
+    within a model): the list the integrator uses to peg states holds every limiter of every model with devices, once"""
+    from collections import OrderedDict
+    import andes.system as SY
+    from andes.core import discrete as D
+    NS_ = __import__('types').SimpleNamespace
+
+    def model(n):
+        lim = D.AntiWindup(u=NS_(name='y', v=np.zeros(1), a=np.zeros(1, dtype=int)), lower=0.0, upper=1.0, name='LAG_lim')
+        other = D.Limiter(u=NS_(name='y', v=np.zeros(1)), lower=0.0, upper=1.0, name='HL')
+        empty = OrderedDict()
+        return NS_(n=n, discrete=OrderedDict(LAG_lim=lim, HL=other), cache=NS_(refresh=lambda *a: None, v_getters=empty, v_adders=empty, e_adders=empty,
+                                                                         v_setters=empty, e_setters=empty)), lim
+    (m1, l1), (m2, l2), (m3, l3) = model(1), model(2), model(0)
+    fake = NS_(antiwindups=[], _getters=dict(x=[], y=[]), _adders=dict(x=[], y=[], f=[], g=[]), _setters=dict(x=[], y=[], f=[], g=[]))
+    fake._clear_adder_setter = lambda: (fake.antiwindups.clear())
+    SY.System.store_adder_setter(fake, OrderedDict(TGOV1=m1, GAST=m2, IDLE=m3))
+    ids = [id(x) for x in fake.antiwindups]
+    return [('every anti-windup limiter of every model with devices is registered, once, whatever its name', sorted(ids) == sorted([id(l1), id(l2)])),
+            ('a model without devices contributes nothing', id(l3) not in ids)]
+
+
 def region_of(values, cname):
     return cname.split('@')[0].split('[')[0].strip()
 
 
 def job(spec):
     name, kind, args = spec
+    if kind == 'awreg':
+        return H.run(name, h_antiwindup_registry, region=lambda v, c: c)
     fn = {'limiter': h_limiter, 'adjust': h_limiter_adjust, 'aw': h_antiwindup, 'rate': h_ratelimiter,
           'lessthan': h_lessthan, 'isequal': lambda: h_isequal, 'switcher': lambda: h_switcher,
           'selector': h_selector, 'sorted': lambda: h_sortedlimiter, 'dbrt': h_deadbandrt,
@@ -528,6 +555,7 @@ def specs(thorough):
     for d in (1, 2):
         S.append((f'Average(step,delay={d}).check_var(calls={kk})', 'avg', (d, kk)))
     S.append((f'Sampling.check_var(calls={kk + 1})', 'sampling', (kk + 1,)))
+    S.append(('System.store_adder_setter anti-windup registry', 'awreg', ()))
     return S
 
 
